@@ -29,6 +29,8 @@ def generate(rng, tier):
     cases = []
     for _ in range(n):
         r, feats = S.gen_recipe(rng)
+        if rng.random() < 0.25 and S.factor_into_macros(rng, r):
+            feats = sorted(set(feats) | {"macro"})
         cases.append({"recipe": r, "reps": rng.choice([1, 1, 2, 3]), "features": feats})
     return cases
 
